@@ -182,12 +182,15 @@ def run(res, tier, seed, shard, nshards):
             close_in_sleep_case(res, W, rng, *job[1:])
 
 
-def execute(plan, run_kwargs, hooks, disp, enabled, closer=None, url="ws://app.test/"):
+def execute(plan, run_kwargs, hooks, disp, enabled, closer=None, url="ws://app.test/", process_reconnect=None):
     out = {}
 
     def scen():
         S = sched.CURRENT
         H.reset_process_state()
+        if process_reconnect is not None:
+            # the interval comes from the process-wide setting (websocket.setReconnect), run_forever() gets no reconnect argument
+            H.ws().setReconnect(process_reconnect)
         run = appsim.AppRun(plan, hooks=hooks, callbacks=enabled, last_repeats=False, url=url)
         out["run"] = run
         run.build()
@@ -238,9 +241,13 @@ def seq_case(res, W, rng, seq, final, interval, disp, ji=0):
     elif ji % 3 == 0:
         run_kwargs.update(ping_interval=2, ping_timeout=1)  # healthy keepalive during reconnections
     url = "wss://app.test/" if any(k in TLS_LOSSES or k in TLS_FAILS for k in seq) else "ws://app.test/"
-    run, out, failure, S = execute(plan, run_kwargs, hooks, disp, enabled, url=url)
+    via_global = ji % 5 == 3
+    if via_global:
+        run_kwargs.pop("reconnect")
+        res.count("runs_with_process_wide_reconnect_setting")
+    run, out, failure, S = execute(plan, run_kwargs, hooks, disp, enabled, url=url, process_reconnect=interval if via_global else None)
     case = {"sequence": seq, "final": final, "interval": interval, "dispatcher": disp or "builtin", "on_reconnect": with_reconnect_cb,
-            "ping": "ping_interval" in run_kwargs}
+            "ping": "ping_interval" in run_kwargs, "interval_set_by": "setReconnect" if via_global else "argument"}
     res.case((seq, final, interval, disp, with_reconnect_cb), nontrivial=len(seq) >= 1)
     res.count("connection_attempts_observed", len(run.attempts) if run else 0)
     res.count("callbacks_observed", len(run.trace) if run else 0)
